@@ -16,7 +16,7 @@ CONSTANTS
   MaxAged = 0
   Ops = {"shutdown"}
   CloseAfterWrites = FALSE
-  CloseDrains = FALSE
+  CloseDrains = TRUE
   Coarse = TRUE
   Emit = TRUE
 INVARIANTS EmitInv
